@@ -52,6 +52,14 @@ CHECKS = {
             'through mixed_rank_graph) and a Counter model; after every batch: size = min(cap, len), distinct, all candidates, '
             'least-evaluated-first, max-min <= 1, reported counts = model. All cap sequences of length <=5 over <=4 candidates are '
             'enumerated.', 'Tie order among equally counted candidates is not constrained.', 'DESIGN.md §3 C07'),
+    'C08': ('Hypothesis constructive CSV generator around batch/tail boundaries: differential against a reference batch model + spies on batches and checkpoints',
+            'Exploration: files are built so that the number of selected valid rows sits on every batch / tail boundary (incl. 1023..1026 '
+            'around the 1024 tail rule) with malformed rows on and off the subsampling grid; the streaming loop is run in-process with an '
+            'owned pool; rows entering every batch, the invalid-line count, the aggregated frame, the on-disk checkpoint at every batch '
+            'boundary and pairwise_ranks.tsv of the in-process ranking task are compared with the reference model (median per ordered pair, '
+            'ascending order).',
+            'Per-batch scores of the model come from the implementation scorer applied to model batches (scoring is decided by C05). '
+            'gzip / multi-file inputs not generated.', 'DESIGN.md §3 C08'),
 }
 
 NOT_YET = 'check not built yet in this commit (work in progress; planned in DESIGN.md §3)'
